@@ -1,7 +1,7 @@
 // Replay driver for unit hookargs: the ORIGINAL argument readers of the reset / stash / rebase hooks (and the two accessors of
 // ParsedGitInvocation they use) against small independent models of git's own option parsing (parse-options + builtin/reset.c
 // parse_args, builtin/stash.c push/save, builtin/rebase.c), over exhaustive-small token sequences and seeded random ones.
-// Argument vectors of the KNOWN DEVIATION CLASSES (REPORT.md: reset-1..5, stash-1..4, rebase-1..2) are skipped by the standing
+// Argument vectors of the KNOWN DEVIATION CLASSES (REPORT.md: reset-1,2,4,5, stash-1..4, rebase-1..2; reset-3 `git reset <rev> --` was repaired in /repo 9dc107a6 and is CHECKED) are skipped by the standing
 // sweep; with the environment variable HOOKARGS_STRICT=1 they are checked too and every class shows up as a FAIL with its input.
 #![allow(dead_code, unused)]
 pub struct Repository { pub _opaque: () }
@@ -65,7 +65,6 @@ fn git_reset_model(a: &[String]) -> Option<ResetModel> {
     if pos.is_empty() && aft.iter().any(|t| !is_opt(t)) { devs_tree.push("reset-1"); }
     let first_nd = a.iter().position(|t| !is_opt(t));
     if let (Some(k), Some((_, Some(v)))) = (first_nd, pff.first()) { if k == *v { devs_tree.push("reset-2"); } }
-    if after.is_some() && pos.len() == 1 && !aft.iter().any(|t| !is_opt(t)) && !mode { devs_paths.push("reset-3"); }
     if aft.iter().any(|t| t == "--") { devs_paths.push("reset-4"); }
     if aft.iter().any(|t| t.starts_with("--pathspec-from-file=") ) || aft.iter().enumerate().any(|(j, t)| t == "--pathspec-from-file" && j + 1 < aft.len()) { devs_tree.push("reset-5"); devs_paths.push("reset-5"); }
     Some(ResetModel { rev, paths, pff: pff.first().map(|p| p.0.clone()), nul, devs_tree, devs_paths })
